@@ -88,8 +88,8 @@ namespace rkcommon {
     inline bool TransactionalValue<T>::update()
     {
       bool didUpdate = false;
+      std::lock_guard<std::mutex> lock{mutex};
       if (newValue) {
-        std::lock_guard<std::mutex> lock{mutex};
         currentValue = std::move(queuedValue);
         newValue     = false;
         didUpdate    = true;
